@@ -5,6 +5,7 @@ package shamir
 import (
 	"bytes"
 	"fmt"
+	"sync"
 	"sort"
 	"testing"
 
@@ -574,4 +575,108 @@ func TestVerif_C20_CoefficientsPerByte(t *testing.T) {
 				"Split(%d bytes, n=%d, t=%d): %d pairs of secret bytes were split with the same polynomial coefficients, e.g. %s - a single share reveals the XOR of those secret bytes", L, n, th, reused, first)
 		}
 	})
+}
+
+// Splits overlapping in time: the server does not serialise them (legacy rekey, root rotation and the creation of a
+// sealed namespace run under different locks), so every one of several concurrent Splits, and a quiet Split after
+// them, must hand out distinct non-zero x-coordinates and shares every threshold subset of which recombines.
+func TestVerif_C20_ConcurrentSplits(t *testing.T) {
+	rec := verifx.NewRecorder("C20", "concurrent-splits", "2..8 goroutines call Split concurrently (generated secrets, n in 2..255, 2<=t<=n, 1..5 rounds each), then one more Split runs alone; every returned share set: n shares, x-coordinates non-zero and pairwise distinct, two generated subsets of size t and (n<=16) the full set combine to the secret; non-trivial = at least 2 rounds per goroutine")
+	defer rec.Flush()
+	rapid.Check(t, func(rt *rapid.T) {
+		workers := rapid.IntRange(2, 8).Draw(rt, "workers")
+		rounds := rapid.IntRange(1, 5).Draw(rt, "rounds")
+		type job struct {
+			secret []byte
+			n, th  int
+			pick   []int
+			shares [][]byte
+			err    error
+			pan    any
+		}
+		mk := func(label string) *job {
+			n := rapid.IntRange(2, 8).Draw(rt, label+"n")
+			if rapid.IntRange(0, 11).Draw(rt, label+"large") == 0 {
+				n = rapid.IntRange(9, 255).Draw(rt, label+"nLarge")
+			}
+			th := rapid.IntRange(2, n).Draw(rt, label+"t")
+			return &job{secret: rapid.SliceOfN(rapid.Byte(), 1, 32).Draw(rt, label+"secret"), n: n, th: th,
+				pick: rapid.Permutation(c20Range(n)).Draw(rt, label+"perm")}
+		}
+		jobs := make([][]*job, workers)
+		for w := range jobs {
+			for r := 0; r < rounds; r++ {
+				jobs[w] = append(jobs[w], mk(fmt.Sprintf("w%dr%d", w, r)))
+			}
+		}
+		last := mk("after")
+		var wg sync.WaitGroup
+		start := make(chan struct{})
+		for w := range jobs {
+			wg.Add(1)
+			go func(js []*job) {
+				defer wg.Done()
+				<-start
+				for _, j := range js {
+					j.pan = verifx.Try(func() { j.shares, j.err = Split(j.secret, j.n, j.th) })
+				}
+			}(jobs[w])
+		}
+		close(start)
+		wg.Wait()
+		last.pan = verifx.Try(func() { last.shares, last.err = Split(last.secret, last.n, last.th) })
+		check := func(j *job, when string) {
+			d := map[string]any{"when": when, "n": j.n, "t": j.th, "workers": workers, "rounds": rounds}
+			if j.pan != nil || j.err != nil {
+				rec.Violation(rt, "split-error:"+when, d, "Split(n=%d,t=%d) %s failed: %v %v", j.n, j.th, when, j.err, j.pan)
+				return
+			}
+			if len(j.shares) != j.n {
+				rec.Violation(rt, "split-count:"+when, d, "Split(n=%d,t=%d) %s returned %d shares", j.n, j.th, when, len(j.shares))
+				return
+			}
+			seen := map[byte]int{}
+			for i, s := range j.shares {
+				x := s[len(s)-1]
+				if prev, dup := seen[x]; dup || x == 0 {
+					rec.Violation(rt, "share-x:"+when, d, "Split(n=%d,t=%d) %s: shares %d and %d have the x-coordinate %d (zero or duplicate)", j.n, j.th, when, prev, i, x)
+					return
+				}
+				seen[x] = i
+			}
+			subsets := [][]int{j.pick[:j.th], j.pick[j.n-j.th:]}
+			if j.n <= 16 {
+				subsets = append(subsets, j.pick)
+			}
+			for _, idx := range subsets {
+				parts := make([][]byte, len(idx))
+				for i, k := range idx {
+					parts[i] = j.shares[k]
+				}
+				var out []byte
+				var err error
+				if p := verifx.Try(func() { out, err = Combine(parts) }); p != nil || err != nil || !bytes.Equal(out, j.secret) {
+					rec.Violation(rt, "combine-mismatch:"+when, d, "Split(n=%d,t=%d) %s: %d of its shares do not combine to the secret (err=%v panic=%v)", j.n, j.th, when, len(idx), err, p)
+					return
+				}
+			}
+		}
+		for _, js := range jobs {
+			for _, j := range js {
+				check(j, "concurrent")
+			}
+		}
+		check(last, "after-concurrent")
+		rec.Case(fmt.Sprintf("workers=%d", workers), rounds >= 2, verifx.Digest(workers, rounds, last.secret, last.n, last.th), func() any {
+			return map[string]any{"workers": workers, "rounds": rounds, "last_n": last.n, "last_t": last.th}
+		})
+	})
+}
+
+func c20Range(n int) []int {
+	out := make([]int, n)
+	for i := range out {
+		out[i] = i
+	}
+	return out
 }
